@@ -33,3 +33,55 @@ Theorem C12_subtree_listing_is_the_filtered_listing :
       (tr, a, Store.Done {| l_ok := true; l_entries := pstitch_keep keep (view a) (N.to_nat b); l_merr := merr |}).
 Proof. exact list_refines. Qed.
 Print Assumptions C12_subtree_listing_is_the_filtered_listing.
+
+(* ---- at the level of the programs, for ANY state of the archive (complete, interrupted or
+        damaged versions) and any band selection policy ---- *)
+From Coq Require Import List NArith.
+From CV Require Import Backup Conf Valid Select SelectP.
+Local Open Scope N_scope.
+
+(* Listing with a selection returns the selected part of the full listing, with the same
+   error count. *)
+Theorem C12_selected_listing_is_the_filter_of_the_listing :
+  forall (pre : bytes -> N) (a : arch) (p : policy) (keep : entry -> bool) tr0 a' r0,
+    run pre (list_prog p Backup.keep_all) a [] = (tr0, a', Store.Done r0) ->
+    exists tr,
+      run pre (list_prog p keep) a []
+      = (tr, a, Store.Done {| l_ok := l_ok r0; l_entries := filter keep (l_entries r0); l_merr := l_merr r0 |}).
+Proof. exact Select_list_select_is_filter. Qed.
+Print Assumptions C12_selected_listing_is_the_filter_of_the_listing.
+
+(* With a subtree S selected: exactly the entries at or below S by whole path components. *)
+Theorem C12_subtree_listing_exact :
+  forall (pre : bytes -> N) (a : arch) (S : str), is_valid S = true ->
+  forall (p : policy) tr0 a' r0 tr a'' r e,
+    HunksValid a ->
+    run pre (list_prog p Backup.keep_all) a [] = (tr0, a', Store.Done r0) ->
+    run pre (list_prog p (subtree_keep S)) a [] = (tr, a'', Store.Done r) ->
+    (In e (l_entries r) <-> In e (l_entries r0) /\ comp_prefix (comps S) (comps (e_apath e)) = true).
+Proof. exact Select_list_subtree_In. Qed.
+Print Assumptions C12_subtree_listing_exact.
+
+(* Restoring only S: the same files with the same bytes as the part of a full restore at or
+   below S, and no error that the full restore does not have. *)
+Theorem C12_subtree_restore_is_part_of_the_full_restore :
+  forall (pre : bytes -> N) (a : arch) (S : str), is_valid S = true ->
+  forall (p : policy) tr0 a' r0,
+    HunksValid a ->
+    run pre (restore_prog p Backup.keep_all) a [] = (tr0, a', Store.Done r0) ->
+    exists tr r,
+      run pre (restore_prog p (subtree_keep S)) a [] = (tr, a, Store.Done r)
+      /\ r_ok r = r_ok r0
+      /\ r_files r = filter (rf_keep (at_or_below S)) (r_files r0)
+      /\ r_merr r + nfailed (filter (fun rf => negb (rf_keep (at_or_below S) rf)) (r_files r0)) = r_merr r0
+      /\ r_merr r <= r_merr r0.
+Proof. exact Select_restore_subtree_exact_valid. Qed.
+Print Assumptions C12_subtree_restore_is_part_of_the_full_restore.
+
+(* Valid paths in every decodable hunk: what conformance gives, and damage keeps. *)
+Theorem C12_valid_hunks_sources :
+  (forall a, Conf a -> HunksValid a)
+  /\ (forall a f a', HunksValid a -> damaged a f a' -> HunksValid a')
+  /\ (forall a, valid_hunks_b a = true -> HunksValid a).
+Proof. exact Select_HunksValid_sources. Qed.
+Print Assumptions C12_valid_hunks_sources.
